@@ -28,6 +28,7 @@ def run(ctx):
             ("ImageCopyMC", "C03_mc_refs.cfg", "art with referrers, two registries, reduced", {}),
             ("ImageCopyMC", "C03_mc_refs2.cfg", "artshare (separate referrer target, shared config blob; two filter options), registry and layout target, reduced", {}),
             ("ImageCopyMC", "C03_mc_refs3.cfg", "art with two referrer filter options, two registries, reduced", {}),
+            ("ImageCopyMC", "C03_mc_loop.cfg", "sigloop (digest tag whose index lists its subject) / artshare with left-over fall-back tags, digest tags +- referrers, registry / layout, reduced", {}),
             ("ImageCopyMC", "C03_mc_full.cfg", "img / inline, every pre-existing subset, full interleaving", {})]
     if th:
         runs += [("ImageCopyMC", "C03_mc_t1.cfg", "11 shapes x 4 pairings x 6 option sets x corner targets x 2 tag states, reduced", {"timeout": 3000}),
@@ -83,6 +84,7 @@ def run(ctx):
                 extra.append(e.scn(sh, pr, "listorder", opts={"dtags": 1} if sh != "art" else {"referrers": 1, "dtags": 1},
                                    listorder=lo, pagesize=0, refapi_src=rng.choice([0, 1])))
     extra += e.client_history("history")
+    extra += e.round4("round4")
     res = e.run(scripts + mx + extra, "fault-free")
 
     # 3. validation against (P)
